@@ -1,16 +1,22 @@
 from props import COMMON_TRUSTED
 
 SPEC = {
-    "translators": ["tr_glyf.py"],
+    "translators": ["tr_glyf.py", "tr_loca.py"],
     "harness": "c16",
     "cases": {"quick": 12000, "thorough": 400000},
+    # when a proof or a translator breaks the case count is multiplied by this (default 5): the width
+    # boundaries are in the corpus and 1-2 % of the generated cases, twice the cases are enough
+    "search_factor": 2,
     "profiles": {"quick": ["debug", "release"], "thorough": ["debug", "release"]},
     "trusted_base": COMMON_TRUSTED + [
         "translators/tr_glyf.py (regenerates coq/Gen/GlyfConsts.v from src/tables/glyf.rs, src/tables.rs, "
         "src/tables/glyf/outline.rs on every run: flag constants and predicates, argument kinds, scale-test "
         "order, Matrix2x2F::row_major argument order, F2Dot14 divisor, calculate_origin triples, lerp "
         "parameter, recursion limit and depth test)",
-        "modelled, not verified: the control flow of SimpleGlyph::read_dep, the Points iterator, "
+        "translators/tr_loca.py (regenerates coq/Gen/LocaConsts.v from src/tables/loca.rs, GlyfTable::read_dep, "
+        "ReadScope::offset/offset_length on every run: short-format multiplier, shape of iter/get/len/read_dep)",
+        "modelled, not verified: LocaTable::read_dep, LocaOffsets::iter, the record splitting of "
+        "GlyfTable::read_dep (Model/GlyfLoca.v), the control flow of SimpleGlyph::read_dep, the Points iterator, "
         "visit_simple_glyph_outline, visit_outline / visit_composite_glyph_outline, the composite parser "
         "(Model/GlyfOutline.v, hand-written after the source; tied by correspondence); the byte reader "
         "(ReadCtxt) is replaced by a list cursor (its exactness is C14's subject)",
@@ -19,21 +25,31 @@ SPEC = {
         "bound for scaled ones",
     ],
     "assumptions": [
-        "glyph records are the byte ranges loca describes (the harness writes a consistent long-format loca; "
-        "the out-of-range-length workaround of GlyfTable::read_dep is not exercised)",
+        "table theorems (d): legal layouts (records stored one after the other, every offset expressible in "
+        "the loca format: short = even and at most 131070, long below 2^32; a record is empty or at least two "
+        "bytes); damaged loca tables and the over-long-record workaround of GlyfTable::read_dep are modelled "
+        "as coded and compared by correspondence only",
         "composite theorem: components with x/y offsets that are not to be scaled; point-number arguments and "
         "SCALED_COMPONENT_OFFSET are documented TODOs of the source and form the excluded class "
         "(modelled as the code behaves, witnessed in Props/C16.v)",
         "legal encodings have true coordinate deltas that fit an i16 (sums leaving the i16 range are rejected "
         "with LimitExceeded since the fix)",
     ],
-    "rule": "synthesised glyf+loca tables: simple glyphs with 0-6 contours of 1-40 points, every on/off "
-            "pattern class (all on, all off, first/last off, random), coordinates from small deltas to the "
-            "i16 extremes, every encoding choice (short/same/long, zero-short sign, reserved bits, repeat "
-            "records of any split); malformed variants (repeated/decreasing/overlong endPtsOfContours, repeat "
-            "overshoot, overflowing deltas, truncation, bit flips, trailing bytes); composite DAGs of 2-8 "
-            "glyphs with 1-3 components each, byte/word arguments, no/uniform/xy/2x2 scales, multiple scale "
-            "bits, instructions, reserved bits, point-number and scaled-offset components, chains around the "
-            "nesting limit, cycles, out-of-range ids. distinct = distinct input lines; class histogram = kind "
-            "of the visited glyph (S/C/E/-) and result (ok[.scaled|.unscaled][.multi] / err)",
+    "rule": "synthesised glyf+loca tables (both tables as bytes, short or long loca): simple glyphs with 0-6 "
+            "contours of 1-40 points, every on/off pattern class (all on, all off, first/last off, random), "
+            "coordinates from small deltas to the i16 extremes, every encoding choice (short/same/long, "
+            "zero-short sign, reserved bits, repeat records of any split); width-boundary glyphs (255-257, "
+            "511-513, 1023-4097, 32767-32769, 65534, 65535, 65536 points; runs of points sharing a flag byte "
+            "in REPEAT records, contours of up to 200 points) alone, behind another glyph or under a "
+            "composite; malformed variants (repeated/decreasing/overlong endPtsOfContours, repeat overshoot, "
+            "overflowing deltas, truncation, bit flips, trailing bytes); composite DAGs of 2-8 glyphs with "
+            "1-3 components each, byte/word arguments, no/uniform/xy/2x2 scales, multiple scale bits, "
+            "instructions, reserved bits, point-number and scaled-offset components, chains around the "
+            "nesting limit, cycles, out-of-range ids; table-level cases: 2-9 glyphs in a short or long loca, "
+            "padding to 1/2/4, glyph data inflated by (parseable) instruction bytes to 60-131 KiB (short) / "
+            "up to 200 KiB (long), records starting exactly at 65534/65536/65538/131068/131070/131072, "
+            "empty records, first/last/high glyph visited, up to 65533 empty glyphs in front (glyph ids up "
+            "to 65534), explicit loca bytes damaged in six ways or read with a wrong numGlyphs. distinct = "
+            "distinct input lines; class histogram = [x = explicit loca][short|long[>64k]:] kind of the "
+            "visited glyph (S/C/E/-) and result (ok[.scaled|.unscaled][.multi][.pts>=N] / err)",
 }
